@@ -91,6 +91,19 @@ pub fn run(ctx: &mut Ctx) {
             }
         }
     }
+    // size probes: operand counts well above the enumerated 0..6
+    for n in al::size_classes(ctx.tier_thorough) {
+        if !ctx.mine() {
+            continue;
+        }
+        for k in OPS {
+            ctx.edge();
+            let accepted = refmodel::arity_ok(k, n);
+            let r = op(k, benign(k, n));
+            let o = ctx.exec(&r, &ds[1]);
+            ctx.record(if accepted { "accept:size-probe" } else { "reject:size-probe" }, &r, &ds[1], &o, verdict(accepted, true, &o));
+        }
+    }
     // the bracket-less spelling: both spellings behave identically (value, Err-ness, output)
     let xs: Vec<Value> = al::v1().into_iter().filter(|x| !x.is_array()).collect();
     for k in OPS {
